@@ -59,7 +59,7 @@ def make_spec(rng, force=None):
         "read_len": rng.choice([[120, 380], [120, 380], [70, 170]]),
         # index of a chromosome on which every sample is homozygous ALT everywhere (nothing to phase), or None
         "all_hom_chrom": None,
-        # no read of any sample connects the two middle variants of a chromosome
+        # per sample and chromosome, no read connects two randomly chosen neighbouring variants
         "gap": rng.random() < 0.45,
         # sample / chromosome names: "role" (K1, F1, ...) or drawn from a pool and shuffled against their role
         "names": rng.choice(["role", "pool", "pool"]),
@@ -74,6 +74,10 @@ def make_spec(rng, force=None):
         # quartet only: all-heterozygous sites, connected only by dedicated read pairs, interleaved with the
         # pedigree-phased sites; one child recombines after them
         "interleave": False,
+        # all chromosomes carry the same reference and the same variant coordinates (different genotypes, reads
+        # and hence different phase-set names per chromosome): state leaking from one chromosome to the next
+        # then hits existing positions
+        "same_coords": rng.random() < 0.45,
     }
     if rng.random() < 0.06:
         spec["all_hom_chrom"] = rng.randrange(spec["nchrom"])
@@ -239,6 +243,14 @@ def build_scenario(spec, wd):
     sc = synth.make_scenario(rng, nchrom=spec["nchrom"], nsamples=len(samples), nvars=spec["nvars"],
                              kinds=tuple(spec["kinds"]), sample_names=samples, het_fraction=0.75, min_gap=25,
                              chrom_names=chrom_names)
+    if spec.get("same_coords") and len(sc.chroms) > 1:
+        c0 = sc.chroms[0]
+        for c in sc.chroms[1:]:
+            sc.ref[c] = sc.ref[c0]
+            sc.variants[c] = [synth.Variant(v.pos, v.ref, v.alt, v.kind) for v in sc.variants[c0]]
+            for s in samples:
+                sc.haps[s][c] = [rng.choice([(0, 1), (1, 0)]) if rng.random() < 0.75 else rng.choice([(0, 0), (1, 1)])
+                                 for _ in sc.variants[c]]
     for ch, fa, mo in trios:
         for c in sc.chroms:
             child, _ = synth.inherit(rng, sc.haps[fa][c], sc.haps[mo][c], recomb_prob=spec["recomb_prob"])
@@ -298,8 +310,9 @@ def build_scenario(spec, wd):
             rs = synth.simulate_reads(rng, sc, s, c, spec["nreads"], len_range=tuple(spec.get("read_len", (120, 380))),
                                       name_prefix=prefix, paired_fraction=spec.get("paired_fraction", 0.0))
             vs = sc.variants[c]
-            if spec.get("gap") and len(vs) >= 4:
-                g = len(vs) // 2
+            if spec.get("gap") and len(vs) >= 4 and rng.random() < 0.7:
+                # a different place for every sample and chromosome: different block structure per family and chromosome
+                g = rng.randint(1, len(vs) - 1)
                 lo, hi = vs[g - 1].pos, vs[g].pos
                 rs = [r for r in rs if not (r["start"] <= lo and r["start"] + sum(n for o, n in r["cigar"] if o in "MD") > hi)]
             reads += rs
